@@ -11,8 +11,8 @@ git -C $WT diff -- mashumaro > $OUT/patch.diff
 ( cd /repo && PYTHONPATH=/repo /venv/bin/python $OUT/demo.py > $OUT/demo_without_change.txt 2>&1; echo "exit=$?" >> $OUT/demo_without_change.txt )
 : > $OUT/checks.txt
 for c in "$@"; do
-  ( cd /verif && VMC_REPO=$WT ./check $c --tier quick 2>/dev/null | grep -v "^KNOWN" | grep -E "^\[|VIOLATION" | tail -3; echo "check=$c exit=$?" ) >> $OUT/checks.txt 2>&1
-  rc=$(cd /verif && VMC_REPO=$WT ./check $c --tier quick >/dev/null 2>&1; echo $?)
+  ( cd ${VERIF:-/verif} && VMC_REPO=$WT ./check $c --tier quick 2>/dev/null | grep -v "^KNOWN" | grep -E "^\[|VIOLATION" | tail -3; echo "check=$c exit=$?" ) >> $OUT/checks.txt 2>&1
+  rc=$(cd ${VERIF:-/verif} && VMC_REPO=$WT ./check $c --tier quick >/dev/null 2>&1; echo $?)
   echo "check=$c exit_code=$rc" >> $OUT/checks.txt
   f=$(ls /tmp/vmc_out/$(basename $WT)/replays/$c-0001.json 2>/dev/null) && python3 -c "
 import json; r=json.load(open('$f')); print('first replay:', r['clause'], '|', r['detail'][:400])" >> $OUT/checks.txt
